@@ -25,6 +25,7 @@ Img(e) ==
     [] e.k = "cc111"     -> <<255, 225, 0, <<>>>>      \* controller 111 is the loop start of RPG-Maker style files
     [] e.k = "loopend"   -> <<255, 226, 0, <<>>>>
     [] e.k = "sysex" -> <<240, 0, 0, <<240>> \o e.b>>
+    [] e.k = "sysex7" -> <<240, 0, 0, <<247>> \o e.b>>       \* F7 escape event: delivered with the status byte it has in the file
     [] OTHER -> <<0, 0, 0, <<>>>>
 \* ordering classes at one tick: "ctl" (controllers, program, wheel, channel pressure), "on", "off", "other"
 Cls(e) == CASE e.k \in {"cc", "pc", "bend", "cat"} -> "ctl"
